@@ -1,11 +1,12 @@
 """Which units / harnesses / cases decide which property.
 
-verus:   list of (unit, rlimit or None, tier) — tier 'quick' units run in both tiers
+verus:   list of (unit, rlimit or None, tier[, extra verus args]) - tier 'quick' units run in both tiers
 kani:    list of (harness, tier, kind) kind in {'full-domain','bounded:<bound>'}
-cases:   extra executable-postcondition cases swept as a labelled stand-in
-         (cases attached to contracted functions through `case=` are found
-         automatically)
+cases:   glob patterns over the base ids of executable postconditions (harness/src/cases_*.rs)
+         swept as a labelled stand-in; '!pat' removes. Cases attached to contracted functions
+         through `case=` in the contract templates are added automatically.
 """
+
 
 def _gf255_k(names, quick_fields=("gf25519",), all_fields=("gf25519", "gf255e", "gf255s")):
     out = []
@@ -18,55 +19,149 @@ def _gf255_k(names, quick_fields=("gf25519",), all_fields=("gf25519", "gf255e", 
 # Z3's newer linear-arithmetic core; the default (solver=2) needs minutes on the 512-bit carry-chain equalities
 ARITH6 = ("--smt-option", "smt.arith.solver=6")
 
+FIELDS = ["gf255", "modint", "gf448", "gfsecp256k1", "gfgen", "gfb127", "gfb254"]
+CURVES = ["ed25519", "ed448", "p256", "secp256k1", "jq255e", "jq255s", "gls254", "ristretto255", "decaf448"]
+
+
+def _f(ops):
+    return ["%s_%s" % (f, o) for f in FIELDS for o in ops]
+
+
+def _c(ops):
+    return ["%s_%s" % (c, o) for c in CURVES for o in ops]
+
+
 PROPS = {
     "C01": dict(
         title="Field arithmetic is exact for every element representation",
         verus=[("w64_prim", None, "quick"), ("gf255_m64_lin", None, "quick"), ("gf255_m64_shift", None, "quick"),
                ("gf255_m64_mul", 300, "quick", ARITH6)],
         kani=_gf255_k(["k_add", "k_sub", "k_neg", "k_half"]),
-        cases=["gf255_mul", "gf255_square", "gf255_xsquare", "gf255_mul_small"],
+        cases=_f(["add", "sub", "neg", "half", "mul", "mul2", "mul4", "mul8", "mul16", "mul32", "mulk", "mul_small", "smallmul", "mul_b127",
+                  "square", "xsquare", "bits"]),
+        level_text="GF255<MQ> (64-bit limbs; instantiated as GF25519, GF255e, GF255s): add, sub, neg, half, mul2..mul32 and the full 4x4-limb multiplication with its two-step pseudo-Mersenne reduction are proved by Verus against fe(result) == op(fe(args)) mod 2^255-MQ for every limb pattern and every admissible MQ; add/sub/neg/half additionally by Kani on the full 2^512 input domain. Other field types, squaring and the other backends: executable-postcondition stand-in only.",
+        level_note="Trusted: Verus+Z3, Kani/CBMC, the x86 add-with-carry intrinsics (assumed to behave as the portable arms that are proved), extraction transformations listed in evidence. Not reached by any contract: ModInt256, GF448, GFsecp256k1, gfgen, binary fields, 32-bit/51-bit/clmul backends.",
+        not_reached=["ModInt256 (Montgomery) arithmetic", "GF448", "GFsecp256k1", "define_gfgen! (ed448 scalar)", "GFb127/GFb254",
+                     "GF255 set_square/set_xsquare/set_mul_small (stand-in only)", "gf255_m51, w32 backend, gfb254_x86clmul/arm64pmull"],
+    ),
+    "C03": dict(
+        title="Point addition, doubling and negation implement the complete group law",
+        verus=[], kani=[],
+        cases=_c(["add_affine_ref", "add_relations", "double_ref", "double_relations", "assoc", "mul_small"]) + ["p256_affine_api", "secp256k1_affine_api"],
+        level="exploration",
+    ),
+    "C04": dict(
+        title="Scalar multiplication returns [n]P for every scalar and point",
+        verus=[], kani=[],
+        cases=_c(["mul_vs_dbladd", "mulgen_vs_dbladd", "mul_homomorphism", "recode_scalar", "recode_u128"]) + ["gls254_zeta_split"],
+        level="exploration",
     ),
     "C05": dict(
         title="Field and scalar encodings are canonical; decoding is strict",
         verus=[("gf255_m64_lin", None, "quick")],
         kani=_gf255_k(["k_normalized_encode", "k_decode_ct32", "k_decode_ct_badlen"]),
-        cases=["gf255_encode", "gf255_decode_ct", "gf255_decode_opt", "gf255_decode_reduce", "gf255_roundtrip"],
+        cases=_f(["encode", "encode_alias", "decode_ct", "decode_opt", "decode_reduce", "roundtrip", "from_int", "from_w64"]),
+        level_text="GF255<MQ>: set_normalized proved by Verus (result limbs == value mod q); encode32, strict decoding (in-place, on an arbitrary previous value) for every 32-byte string and every wrong length 0..=40, and encode-after-decode, proved by Kani on the full input domain. Other field/scalar types and decode_reduce: stand-in only.",
+        level_note="u64::from_le_bytes/to_le_bytes cannot be given a Verus spec in this toolchain (const-expression array length), so byte-level codecs are decided by Kani, not Verus. decode_reduce (any length) is stand-in only.",
+        not_reached=["GF255 set_decode_reduce (stand-in only)", "codecs of ModInt256, GF448, GFsecp256k1, gfgen, binary fields"],
     ),
-    "C20": dict(
-        title="Masked selection primitives select exactly as their control word says",
-        verus=[("gf255_m64_lin", None, "quick"), ("gf255_m64_lookup", None, "quick")],
-        kani=_gf255_k(["k_iszero_equals", "k_cond_select_cswap"]) + _gf255_k(["k_lookup16", "k_lookup16_x4"], quick_fields=()),
-        cases=["gf255_equals"],
+    "C06": dict(
+        title="Group-element encodings are canonical, injective and strictly decoded",
+        verus=[], kani=[],
+        cases=_c(["decode_strict", "encode_equals", "subgroup_flags"]),
+        level="exploration",
+    ),
+    "C07": dict(
+        title="Ed25519/Ed448 verification equals the strict cofactored RFC 8032 predicate",
+        verus=[], kani=[],
+        cases=["ed25519_sign", "ed25519_verify", "ed448_sign", "ed448_verify"],
+        level="exploration",
+    ),
+    "C08": dict(
+        title="ECDSA (P-256, secp256k1): standard verification, documented nonce derivation",
+        verus=[], kani=[],
+        cases=["ecdsa_sign", "ecdsa_verify"],
+        level="exploration",
+    ),
+    "C09": dict(
+        title="jq255e/jq255s/GLS254 Schnorr signatures and ECDH behave as specified",
+        verus=[], kani=[],
+        cases=["jq255e_sign", "jq255e_verify", "jq255e_ecdh", "jq255s_sign", "jq255s_verify", "jq255s_ecdh", "gls254_sign", "gls254_verify", "gls254_ecdh"],
+        level="exploration",
     ),
     "C10": dict(
         title="Variable-time fast paths agree with the constant-time reference",
         verus=[("recode_naf", None, "quick")],
         kani=[],
-        cases=["jq255e_recode_u128_naf", "jq255s_recode_u128_naf", "ed25519_recode_u128_naf", "secp256k1_recode_u128_naf",
-               "p256_recode_u129_naf", "ed25519_recode_scalar_naf", "jq255e_recode_scalar_naf", "jq255s_recode_scalar_naf",
-               "secp256k1_recode_scalar_naf", "p256_recode_scalar_naf", "ed448_recode_scalar_naf", "ed448_recode_halfwidth_naf"],
+        cases=["*_recode_u128_naf", "p256_recode_u129_naf", "*_recode_scalar_naf", "ed448_recode_halfwidth_naf", "*_vartime*"],
+        level_text="The 5-bit wNAF recoding of 128-bit integers (jq255e, jq255s, ed25519, secp256k1 copies) is proved by Verus for every u128 by loop induction: digits odd in -15..15 or zero and sum sd[i]*2^i == n (the last ten iterations closed by exhaustive evaluation of the 528 possible residual values). The interleaved multi-scalar loops and verify helpers are stand-in only.",
+        level_note="Interleaved loops (set_mul_add_mulgen_vartime etc.) and verify_helper_vartime are not under contract; scalar-fed NAF recoders stand-in only.",
+        not_reached=["set_mul_add_mulgen_vartime / set_mul128_add_mulgen_vartime / set_mul64mu_add_mulgen_vartime", "verify_helper_vartime", "recode_scalar_NAF, recode_u129_NAF, recode_halfwidth_NAF (stand-in only)"],
+    ),
+    "C11": dict(
+        title="Scalar splitting functions meet their contracts and always terminate",
+        verus=[], kani=[],
+        cases=["modint_split", "gfgen_split", "gls254_zeta_split"],
+        level="exploration",
+    ),
+    "C12": dict(
+        title="Field division, inversion, square root and Legendre symbol are correct",
+        verus=[], kani=[],
+        cases=_f(["div", "batch_invert", "legendre", "sqrt", "sqrt_ext", "trace", "halftrace", "qsolve", "lin"]),
+        level="exploration",
+    ),
+    "C14": dict(
+        title="X25519 and X448 compute the RFC 7748 functions on all inputs",
+        verus=[], kani=[],
+        cases=["x25519_ladder", "x25519_base", "x448_ladder", "x448_base"],
+        level="exploration",
     ),
     "C16": dict(
         title="LMS never reuses a one-time key and accepts exactly its own signatures",
         verus=[],
         kani=[("lms::sha256_m32::k_sign_state_machine", "quick", "full-domain"), ("lms::sha256_m32::k_verify_total", "quick", "full-domain")]
              + [("lms::%s::%s" % (ps, hn), "thorough", "full-domain") for ps in ("sha256_m24", "shake_m24", "shake_m32") for hn in ("k_sign_state_machine", "k_verify_total")],
-        cases=[],
+        cases=["lms_key_life", "lms_sig_corrupt"],
         explanation="One call of sign() is proved against its contract for every key state (all 2^32 counter values, symbolic I/SEED/tree): below 2^h it returns a signature carrying the old index and the right authentication path and leaves counter = old+1 with I, SEED and the tree unchanged; at or above 2^h it returns None and changes nothing. The whole-history statement (strictly increasing indices, each at most once, exhaustion) is the induction over calls on that contract. verify(): false for every wrong length, out-of-range index, and no panic. The one-time signature (ots_sign/ots_verify) and the hash functions are havoc stubs in these harnesses.",
         assumptions=["ots_sign / ots_verify / Hm replaced by havoc stubs (kani::stub): the Winternitz chain arithmetic and 'own signatures verify' are not decided by the deductive check (see stand-in sweep cases lms_*)",
                      "'rejects any other message' is a collision-resistance statement about the hash, not a theorem of the code: not claimed"],
+        level_text="sign(): one-call contract proved by Kani for every key state; the history property is its induction. verify(): length / index / type rejection and absence of panics for every string. Completeness (own signatures verify) and the Winternitz arithmetic: stand-in only.",
+        level_note="ots_sign, ots_verify and the hash functions are havoc stubs in the Kani harnesses.",
     ),
     "C17": dict(
         title="Hash functions match their standards for every input and call pattern",
         verus=[("sha2_update", None, "quick")],
         kani=[],
-        cases=[],
+        cases=["hash_chunked", "hash_script", "shake_chunked", "shake_script", "blake2s_chunked", "blake2s_script", "blake2s_keyed_chunked", "blake2s_keyed_reset"],
         explanation="SHA-2 family: update() of both block sizes is proved (Verus, loop invariant, any number of calls, any chunk lengths) to extend the absorbed byte string: view(final) == view(old) ++ src, where view relates (h, buf, ctr) to the message through an abstract compression function. Padding/finalisation (to_be_bytes has no Verus spec in this toolchain), the compression functions, SHA-3 and BLAKE2s are covered only by the labelled stand-in sweep against from-the-standard reference implementations.",
         assumptions=["process() (the compression function) is used through an assumed contract: final.h == compress(old.h, old.buf), buf and ctr unchanged",
                      "usize is 64 bits (global size_of usize == 8)"],
+        level_text="SHA-224/256/384/512 streaming: update() proved by Verus to be concatenation on the abstract message view for every chunking. Padding, compression functions, SHA-3, SHAKE, BLAKE2s: stand-in only (reference implementations written from the standards).",
+        level_note="Compression function abstract; finalisation not under contract.",
+    ),
+    "C19": dict(
+        title="Decoding and verification are total: no panic, hang or out-of-bounds",
+        verus=[("recode_naf", None, "quick")],
+        kani=[("lms::sha256_m32::k_verify_total", "quick", "full-domain")] + _gf255_k(["k_decode_ct_badlen"]),
+        cases=["*_decode_strict", "*_decode_ct", "*_decode_opt", "*_decode_reduce", "*_verify", "ecdsa_verify", "*_ecdh", "lms_sig_corrupt", "modint_split", "gfgen_split",
+               "hash_script", "x25519_ladder", "x448_ladder"],
+        level_text="Absence of panics / out-of-bounds is part of every Verus obligation set and every Kani harness listed (index, slice, overflow and unwrap checks are built-in obligations): GF255 strict decoding for every length, LMS verify for every string, wNAF recoding. All other entry points: the stand-in sweep catches panics (catch_unwind) on boundary-biased inputs of all lengths.",
+        level_note="Most decode/verify entry points are not under contract; status-word exactness is proved only for GF255 (C20).",
+    ),
+    "C20": dict(
+        title="Masked selection primitives select exactly as their control word says",
+        verus=[("gf255_m64_lin", None, "quick"), ("gf255_m64_lookup", None, "quick")],
+        kani=_gf255_k(["k_iszero_equals", "k_cond_select_cswap"]) + _gf255_k(["k_lookup16", "k_lookup16_x4"], quick_fields=()),
+        cases=_f(["cond", "select", "cswap", "equals", "iszero", "lookup16_x3", "lookup16_x4", "lookup"]),
+        level_text="GF255<MQ>: set_cond, select, cswap (exact copies/swaps for ctl in {0,0xFFFFFFFF}, whole-struct frames), iszero and equals (0xFFFFFFFF iff values equal mod q, for all three representations of zero), lookup16_x3/x4 (exact entry for j<16, zeros for every other u32) proved by Verus; the same by Kani on the full domain. Other field types and point-level selection/lookups: stand-in only.",
+        level_note="AVX2 lookup arms not reached (intrinsics).",
+        not_reached=["point-level set_cond/select/set_condneg/lookup", "other field types", "AVX2 lookup paths"],
     ),
 }
 
 NOT_APPLICABLE = {
     "C02": "Constant-time behaviour of the optimized machine code (branch and address traces) is not a property of values computed by the source program; no Verus/Kani contract can state it and neither tool sees the emitted code.",
+    "C13": "Not reached: truncated-signature verification (baby-step/giant-step search over x-only sequences, 16385-entry table) has no contract in this framework; soundness would follow from group-law and verify contracts that are themselves not discharged, and completeness is a covering argument no contract within reach states.",
+    "C15": "Not reached: FROST is generated by define_frost_core! over five ciphersuites; its end-to-end statement (any t of n signers produce a valid aggregate) is protocol-level algebra over group and hash abstractions that no function contract in this framework reaches.",
+    "C18": "Not decided: a relational claim over build configurations. It would follow as a corollary if every backend discharged the same contract text, but only the default 64-bit backend of GF255 is under contract; the other backends (w32, gf255_m51, zz32, clmul, AVX2/SSE2) are not reached, so no claim is made.",
 }
